@@ -100,7 +100,7 @@ func genBody(r *rand.Rand, o *genOpts, depth int, deferred bool) []*Ins {
 	return out
 }
 
-func genTree(r *rand.Rand, withFindings bool) []*Ins {
+func genTree(r *rand.Rand) []*Ins {
 	o := &genOpts{maxDepth: 1 + r.Intn(4), maxLen: 2 + r.Intn(5), budget: 6 + r.Intn(30), natPanic: true, deferNatPn: true, stopFatal: true}
 	// a third of the trees call some of their functions through native code
 	if r.Intn(3) == 0 {
@@ -110,17 +110,17 @@ func genTree(r *rand.Rand, withFindings bool) []*Ins {
 }
 
 // genCallbackTree: a tree whose calls mostly go through native code, with
-// Stop, Fatal, panics and recoveries inside the callbacks. A panic that leaves
-// a callback is a known finding (callback-panic-is-fatal): unless
-// withFindings, every callback recovers its panics itself.
-func genCallbackTree(r *rand.Rand, withFindings bool) []*Ins {
+// Stop, Fatal, panics and recoveries inside the callbacks. unguarded: panics
+// may leave the callbacks (they unwind through the native frame into the
+// caller: repaired by 34a254c); otherwise every callback recovers its panics itself.
+func genCallbackTree(r *rand.Rand, unguarded bool) []*Ins {
 	var body func(depth int, inCb bool) []*Ins
 	val := func() int { return 1 + r.Intn(9) }
 	body = func(depth int, inCb bool) []*Ins {
 		var out []*Ins
 		n := 1 + r.Intn(4)
 		guarded := false
-		if inCb && !withFindings {
+		if inCb && !unguarded {
 			// the callback recovers whatever panics inside it
 			out = append(out, &Ins{Tok: tDeferFn, Body: []*Ins{{Tok: tRecover}}})
 			guarded = true
@@ -145,20 +145,19 @@ func genCallbackTree(r *rand.Rand, withFindings bool) []*Ins {
 					out = append(out, &Ins{Tok: tBody, N: val()})
 				}
 			case x < 90:
-				if !inCb || guarded || withFindings {
+				if !inCb || guarded || unguarded {
 					out = append(out, &Ins{Tok: tPanic, N: val()})
 				}
 			case x < 94:
-				if !inCb || guarded || withFindings {
+				if !inCb || guarded || unguarded {
 					out = append(out, &Ins{Tok: tNatPanic, N: val()})
 				}
 			default:
 				out = append(out, &Ins{Tok: tRecover})
 			}
 		}
-		if inCb && withFindings && r.Intn(3) == 0 {
-			// a chain with a recovered record leaves the callback (known finding
-			// recovered-panic-stays-in-chain inside the VM of the callback)
+		if inCb && unguarded && r.Intn(3) == 0 {
+			// a panic raised after a recovery in the same function leaves the callback
 			out = append(out, &Ins{Tok: tDeferFn, Body: []*Ins{{Tok: tPanic, N: val()}}},
 				&Ins{Tok: tDeferFn, Body: []*Ins{{Tok: tRecover}}}, &Ins{Tok: tPanic, N: val()})
 		}
@@ -459,36 +458,6 @@ func (r *runRec) decls() native.Declarations {
 	}
 }
 
-// callbackChain parses the text Run panics with when a panic leaves a
-// function called back by native code (callable.Value: the chain, oldest
-// first, one per line: `msg[ [recovered]]`, the later ones after "\tpanic: ").
-// It returns the records newest first.
-func callbackChain(s string) (recs [][2]byte, ok bool) {
-	if !strings.HasSuffix(s, "\n") {
-		return nil, false
-	}
-	lines := strings.Split(strings.TrimSuffix(s, "\n"), "\n")
-	for i, l := range lines {
-		if i > 0 {
-			if !strings.HasPrefix(l, "\tpanic: ") {
-				return nil, false
-			}
-			l = l[len("\tpanic: "):]
-		}
-		rc := byte(0)
-		if strings.HasSuffix(l, " [recovered]") {
-			rc = 1
-			l = strings.TrimSuffix(l, " [recovered]")
-		}
-		m := msgNum(l)
-		if m == 255 {
-			return nil, false
-		}
-		recs = append([][2]byte{{m, rc}}, recs...)
-	}
-	return recs, len(recs) > 0 && len(recs) < 250
-}
-
 // msgNum maps the values "p<n>" / "f<n>" back to n (255: anything else).
 func msgNum(v any) byte {
 	s, ok := v.(string)
@@ -525,15 +494,6 @@ func encodeOutcome(tr []byte, err error, hostPanic any) (enc, noLines []byte, pa
 	case hostPanic != nil:
 		if s, ok := hostPanic.(string); ok && msgNum(s) != 255 {
 			add(13, msgNum(s))
-		} else if recs, ok := callbackChain(fmt.Sprint(hostPanic)); ok {
-			if _, isStr := hostPanic.(string); !isStr {
-				add(14)
-				break
-			}
-			add(16, byte(len(recs)))
-			for _, r := range recs {
-				add(r[0], r[1])
-			}
 		} else {
 			add(14)
 		}
